@@ -280,4 +280,57 @@ def openWait (waitS : Nat) (arrival : Option Nat) : OpenWait :=
     else if a = waitS * 1000 then .race
     else .notify TimerTable.openWaitNotify.1 TimerTable.openWaitNotify.2
 
+/-! ## OPENCONFIRM: waiting for the first KEEPALIVE (`Peer._read_ka`)
+
+`_establish`, once both OPENs are in: creates the `ReceiveTimer`, sends our KEEPALIVE, then
+
+    message = await asyncio.wait_for(self.proto.read_keepalive(), timeout=int(holdtime) or None)
+    except asyncio.TimeoutError: raise Notify(4, 0)
+    self.recv_timer.check_ka_timer(message)
+
+`read_keepalive` loops on `read_message` until it returns a real message (NOPs are skipped); a
+KEEPALIVE is returned, anything else raises `Notify(5, 2)`.  So the hold timer of this phase is
+**one** `wait_for` over the whole wait, armed when `_read_ka` is entered (`tW`, just after the
+peer's OPEN was read and our KEEPALIVE written): it runs on the event loop's clock in
+(fractions of) seconds — no `int(time.time())` truncation — is not re-armed by anything
+(partial bytes of a message, NOPs), and is ended only by the first complete real message.
+With hold time 0 the timeout is `None`: no timer. -/
+
+/-- the first real message of an arrival sequence (what `read_keepalive` stops at) -/
+def firstReal : List Poll → Option Poll
+  | [] => none
+  | p :: ps => if p.kind.real then some p else firstReal ps
+
+inductive OcOutcome where
+  | waiting                       -- still in OPENCONFIRM
+  | established (a : Nat)         -- the first message was a KEEPALIVE, read at `a`
+  | notify (t code sub : Nat)     -- `Notify(code, sub)` raised at `t`
+  | race (t : Nat)                -- message and timeout ready in the same event-loop iteration
+deriving DecidableEq, Repr
+
+/-- Outcome of the wait entered at `tW` with negotiated hold time `H`, as of `now`: `arrivals` =
+    what `read_message` returned since, with the clock reading of each (in order). -/
+def openConfirm (H tW : Nat) (arrivals : List Poll) (now : Nat) : OcOutcome :=
+  let deadline := tW + H * 1000
+  match firstReal arrivals with
+  | some p =>
+    if H ≠ 0 ∧ deadline < p.t then .notify deadline TimerTable.openConfirmNotify.1 TimerTable.openConfirmNotify.2
+    else if H ≠ 0 ∧ p.t = deadline then .race deadline
+    else if p.kind.isKeepalive then .established p.t
+    else .notify p.t TimerTable.openConfirmUnexpected.1 TimerTable.openConfirmUnexpected.2
+  | none =>
+    if H ≠ 0 ∧ deadline ≤ now then .notify deadline TimerTable.openConfirmNotify.1 TimerTable.openConfirmNotify.2
+    else .waiting
+
+/-- arrival times do not decrease (starting from `prev`) -/
+def Mono : Nat → List Poll → Prop
+  | _, [] => True
+  | prev, p :: ps => prev ≤ p.t ∧ Mono p.t ps
+
+/-- The session handed to `_main` when the first KEEPALIVE was read at `a`: the `ReceiveTimer`
+    created at `tC` has seen `check_ka_timer(KEEPALIVE)` at `a`, the `KA` is created at `tS`. -/
+def Sess.afterOpenConfirm (localHold peerHold tC a tS : Nat) : Sess :=
+  { recv := ((Recv.establish localHold peerHold tC).checkKaTimer a Kind.keepalive).1,
+    send := Send.establish localHold peerHold tS, closed := none }
+
 end Exa.Timer
